@@ -126,6 +126,15 @@ example : (step flatOps cfg0 st0 (.advance 4999999999)).1.timers.length = 1 := b
 example : (step flatOps cfg0 st0 (.advance 5000000000)).1.timers.length = 0 ∧
           (AMap.get (step flatOps cfg0 st0 (.advance 5000000000)).1.locks [97]).map (·.keys) = some [] := by decide
 
+/-! ### the model's unbounded arithmetic is the code's: `time.Duration(int32 seconds) * time.Second` cannot overflow -/
+
+/-- every lock / wait / renew timeout a request can carry (an `int32` number of seconds) times 10⁹ fits an
+`int64` nanosecond `time.Duration` with room to spare, so `s.now + t.toNat * sec` over `Nat` is what the
+code computes -/
+theorem duration_fits_int64 (t : Int) (h0 : 0 ≤ t) (h1 : t < 2 ^ 31) : t * 1000000000 < 2 ^ 63 := by omega
+
+example : sec = 1000000000 := by decide
+
 /-! ### after expiry the key is dead, for every continuation -/
 
 /-- the lease callback of a hold leaves its (name, key) dead … -/
